@@ -17,8 +17,8 @@
      - no output file is opened on any run that does not end well, for any token list at all (C19_no_output_on_error);
      - each of the 19 documented keys accepts exactly the documented values and decodes them to their documented
        meaning — unconditionally for ten keys, outside the narrowed triggers of the two remaining findings for nine;
-     - a value that is rejected is rejected by the decoder's ValueError, for all JSON values of 16 keys and outside
-       trigger_escape for the other three; stl_reader.program_start_tc is characterised completely (C19_start_tc_outcome);
+     - a value that is rejected is rejected by the decoder's ValueError, for all JSON values of all 19 keys, and so is a
+       configuration or a section that is not a JSON object; stl_reader.program_start_tc is characterised completely;
      - the plan depends on nothing but the documented keys of the consulted sections: not on key order, not on other
        sections, not on undocumented keys (README is silent about those: they are ignored).
    Byte equality of the real process with the real library calls, and independence from the hash seed / earlier
@@ -190,27 +190,45 @@ Proof. exact config_meaning. Qed.
 Theorem C19_config_rejects_partial : forall k v,
   in_table k v = true -> trigger k v = false -> documented k v = false -> exists e, decode k v = Raise e.
 Proof. exact config_rejects. Qed.
-(* how a value is rejected.  Full statement:  forall k v e, decode k v = Raise e -> e = EValue  (the decoder's own
-   "Invalid ... value. Expect: ..." error).  It holds for ALL JSON values — no hypothesis about the table or the acceptance
-   triggers — of 16 keys (since the repair, stl_reader.program_start_tc and font_stack included), and of the other three
-   (scc_reader.text_align, general.document_lang, general.log_level) for every value of the right JSON type
-   (Spec/CliSpec.v trigger_escape; refutation in Findings/C19.v). *)
-Theorem C19_config_rejection_is_value_error_partial : forall k v e,
-  trigger_escape k v = false -> decode k v = Raise e -> e = EValue.
+(* how a value is rejected: by the decoder's ValueError ("Invalid ... value. Expect: ..."), for ALL JSON values of ALL 19
+   keys — no hypothesis about the table or the acceptance triggers.  (Before the repairs of stl_reader.program_start_tc /
+   font_stack, scc_reader.text_align, general.document_lang / log_level this needed a trigger: values of the wrong JSON
+   type escaped as AttributeError / TypeError from inside the library.) *)
+Theorem C19_config_rejection_is_value_error : forall k v e, decode k v = Raise e -> e = EValue.
 Proof. exact decode_raises_value_error. Qed.
 Theorem C19_config_rejects_value_error_partial : forall k v,
-  in_table k v = true -> trigger k v = false -> trigger_escape k v = false -> documented k v = false -> decode k v = Raise EValue.
+  in_table k v = true -> trigger k v = false -> documented k v = false -> decode k v = Raise EValue.
 Proof. exact config_rejects_value_error. Qed.
-(* whole sections, whatever they hold: every module's parse fails by ValueError or not at all — except scc_reader's, which
-   can also fail by AttributeError, and then text_align is given and is not a string *)
+(* whole sections, whatever they hold: every module's parse fails by ValueError or not at all *)
 Theorem C19_section_rejection_is_value_error : forall d e,
-  (parse_general d = Raise e -> e = EValue) /\ (parse_imsc d = Raise e -> e = EValue) /\ (parse_stl d = Raise e -> e = EValue) /\
-  (parse_srt d = Raise e -> e = EValue) /\ (parse_vtt d = Raise e -> e = EValue) /\ (parse_lcd d = Raise e -> e = EValue) /\
-  (parse_scc d = Raise e -> e = EValue \/ (e = EAttribute /\ exists v, obj_get (T "text_align") d = Some v /\ forall s, v <> JStr s)).
+  (parse_general d = Raise e -> e = EValue) /\ (parse_imsc d = Raise e -> e = EValue) /\ (parse_scc d = Raise e -> e = EValue) /\
+  (parse_stl d = Raise e -> e = EValue) /\ (parse_srt d = Raise e -> e = EValue) /\ (parse_vtt d = Raise e -> e = EValue) /\
+  (parse_lcd d = Raise e -> e = EValue).
 Proof.
   exact (fun d e => match sections_raise_value_error d with
-                    | conj a (conj b (conj c (conj f (conj g h)))) => conj (a e) (conj (b e) (conj (c e) (conj (f e) (conj (g e) (conj (h e) (scc_section_raises d e))))))
+                    | conj a (conj b (conj c (conj f (conj g (conj h i))))) => conj (a e) (conj (b e) (conj (c e) (conj (f e) (conj (g e) (conj (h e) (i e))))))
                     end).
+Qed.
+(* ... and so does read_config_from_json on ANY configuration value, one that is not a JSON object or whose section is
+   not a JSON object included: a configuration is read, is absent, or is a ValueError *)
+Theorem C19_read_config_rejection_is_value_error : forall data e,
+  (read_config "general" parse_general data = Raise e -> e = EValue) /\ (read_config "imsc_writer" parse_imsc data = Raise e -> e = EValue) /\
+  (read_config "scc_reader" parse_scc data = Raise e -> e = EValue) /\ (read_config "stl_reader" parse_stl data = Raise e -> e = EValue) /\
+  (read_config "srt_writer" parse_srt data = Raise e -> e = EValue) /\ (read_config "vtt_writer" parse_vtt data = Raise e -> e = EValue) /\
+  (read_config "lcd" parse_lcd data = Raise e -> e = EValue).
+Proof.
+  intros data e.
+  pose proof (fun d => proj1 (sections_raise_value_error d)) as A.
+  pose proof (fun d => proj1 (proj2 (sections_raise_value_error d))) as B.
+  pose proof (fun d => proj1 (proj2 (proj2 (sections_raise_value_error d)))) as C.
+  pose proof (fun d => proj1 (proj2 (proj2 (proj2 (sections_raise_value_error d))))) as D.
+  pose proof (fun d => proj1 (proj2 (proj2 (proj2 (proj2 (sections_raise_value_error d)))))) as E.
+  pose proof (fun d => proj1 (proj2 (proj2 (proj2 (proj2 (proj2 (sections_raise_value_error d))))))) as F.
+  pose proof (fun d => proj2 (proj2 (proj2 (proj2 (proj2 (proj2 (sections_raise_value_error d))))))) as G.
+  exact (conj (read_config_raises_value_error _ _ data A e) (conj (read_config_raises_value_error _ _ data B e)
+        (conj (read_config_raises_value_error _ _ data C e) (conj (read_config_raises_value_error _ _ data D e)
+        (conj (read_config_raises_value_error _ _ data E e) (conj (read_config_raises_value_error _ _ data F e)
+              (read_config_raises_value_error _ _ data G e))))))).
 Qed.
 (* stl_reader.program_start_tc, for ALL JSON values, no trigger: null = not specified; "TCP" in any letter case = TCP; a
    complete time code — four two-digit fields and three separators, any characters but a line feed — is kept as written;
@@ -305,7 +323,7 @@ Theorem C19_tables_are_the_codes :
 Proof. exact (conj file_types_agree (conj filter_registry_agrees (conj config_fields_agree (conj convert_shape_agrees argparse_agrees)))). Qed.
 Theorem C19_decoders_on_probe_set :
   forallb probe_ok gen_probes = true /\ forallb (fun p => negb (probe_class p =? 9) && negb (probe_class p =? 8)) gen_probes = true /\
-  forallb (fun p => negb (probe_escape p =? 7)) gen_probes = true.
+  forallb (fun p => probe_escape p =? 0) gen_probes = true.
 Proof. exact (conj probes_agree (conj probes_spec_ok probes_escape_ok)). Qed.
 Theorem C19_defaults_are_the_codes :
   default_scc = gen_default_scc /\ default_stl = gen_default_stl /\ default_imsc = gen_default_imsc /\
@@ -368,11 +386,15 @@ Example C19_example_table :
 Proof. vm_compute. repeat split; reflexivity. Qed.
 (* the hypotheses of the rejection theorems are satisfiable, and their conclusions are about real rejections *)
 Example C19_example_rejections :
-  trigger_escape KStartTc (JInt 5) = false /\ decode KStartTc (JInt 5) = Raise EValue /\
-  trigger_escape KFontStack (JArr [JStr (T "Arial")]) = false /\ decode KFontStack (JArr [JStr (T "Arial")]) = Raise EValue /\
-  trigger_escape KSccTextAlign (JStr (T "centre")) = false /\ decode KSccTextAlign (JStr (T "centre")) = Raise EValue /\
+  decode KStartTc (JInt 5) = Raise EValue /\ decode KFontStack (JArr [JStr (T "Arial")]) = Raise EValue /\
+  decode KSccTextAlign (JStr (T "centre")) = Raise EValue /\ decode KSccTextAlign (JBool true) = Raise EValue /\
+  decode KSccTextAlign JNull = Raise EValue /\ decode KDocumentLang (JInt 5) = Raise EValue /\
+  decode KLogLevel (JFloat 5 2) = Raise EValue /\ decode KLogLevel (JInt 20) = Raise EValue /\ decode KLogLevel (JStr (T "bogus")) = Raise EValue /\
+  decode KLogLevel (JStr (T "WARN")) = Ok (CInt 30) /\ decode KDocumentLang (JStr (T "es-419")) = Ok (CText (T "es-419")) /\
   in_table KColor (JBool true) = true /\ trigger KColor (JBool true) = false /\ documented KColor (JBool true) = false /\
-  parse_stl [(T "program_start_tc", JBool true)] = Raise EValue /\ parse_scc [(T "text_align", JBool true)] = Raise EAttribute /\
+  parse_stl [(T "program_start_tc", JBool true)] = Raise EValue /\ parse_scc [(T "text_align", JBool true)] = Raise EValue /\
+  read_config "scc_reader" parse_scc (Some (JObj [(T "scc_reader", JInt 5)])) = Raise EValue /\
+  read_config "general" parse_general (Some (JArr [])) = Raise EValue /\
   decode KStartTc (JStr (T "tCp")) = Ok (CText (T "TCP")) /\ decode KStartTc (JStr (T "10:00:00;00")) = Ok (CText (T "10:00:00;00")) /\
   decode KStartTc (JStr (T "10:00:00")) = Raise EValue.
 Proof. vm_compute. repeat split; reflexivity. Qed.
@@ -396,7 +418,7 @@ Print Assumptions C19_precedence.  Print Assumptions C19_inline_alone.  Print As
 Print Assumptions C19_filters_order.  Print Assumptions C19_filters_configured.  Print Assumptions C19_lang_override.
 Print Assumptions C19_config_acceptance_exact.  Print Assumptions C19_config_acceptance_fps.  Print Assumptions C19_config_acceptance_partial.
 Print Assumptions C19_config_meaning_partial.  Print Assumptions C19_config_rejects_partial.  Print Assumptions C19_config_colors.
-Print Assumptions C19_config_rejection_is_value_error_partial.  Print Assumptions C19_config_rejects_value_error_partial.
+Print Assumptions C19_config_rejection_is_value_error.  Print Assumptions C19_read_config_rejection_is_value_error.  Print Assumptions C19_config_rejects_value_error_partial.
 Print Assumptions C19_section_rejection_is_value_error.  Print Assumptions C19_start_tc_outcome.  Print Assumptions C19_start_tc_accepts.
 Print Assumptions C19_font_stack_documented_accepted.  Print Assumptions C19_font_single_name.
 Print Assumptions C19_section_acceptance.  Print Assumptions C19_section_acceptance_general.
